@@ -73,7 +73,9 @@ func genMailboxName(t *simrt.Tape) string {
 	return s
 }
 
-var flagPool = []imap.Flag{imap.FlagSeen, imap.FlagAnswered, imap.FlagFlagged, imap.FlagDeleted, imap.FlagDraft, "\\SEEN", "\\deleted", "$Forwarded", "custom", "Keyword_1", "$MDNSent", "\\Weird"}
+var flagPool = []imap.Flag{imap.FlagSeen, imap.FlagAnswered, imap.FlagFlagged, imap.FlagDeleted, imap.FlagDraft, "\\SEEN", "\\deleted", "$Forwarded", "custom", "Keyword_1", "$MDNSent", "\\Weird",
+	// keywords spelled like system flags (no backslash): different flags, and they must stay so
+	"Seen", "draft", "FLAGGED", "Deleted", "answered", "Recent"}
 
 func genFlags(t *simrt.Tape, min int) []imap.Flag {
 	n := min + t.Choose(4)
